@@ -338,6 +338,7 @@ Proof.
       * destruct (drain_buffer _) as [st2 cbs] eqn:DB. inversion H; subst.
         eapply G; [| | |exact DB]; sproj; auto.
       * destruct (find_offer false (s_clients st)) as [a0|] eqn:FO; [|discriminate].
+        destruct (client_of st a0) eqn:KO; try discriminate.
         destruct (drain_buffer _) as [st2 cbs] eqn:DB. inversion H; subst.
         eapply G; [| | |exact DB]; sproj; auto.
         intros b id Hw. rewrite client_of_set in Hw. destruct (N.eqb_spec b a0); [|assumption].
@@ -376,7 +377,8 @@ Proof.
   - destruct (s_pqueue st); [discriminate|]. destruct (tl_increments _ _); [|discriminate].
     inversion H; subst. wi_same WI.
   - destruct (0 <? s_pol_stop_msgs st); [inversion H; subst; wi_same WI|].
-    destruct (find_offer true (s_clients st)) as [a0|]; [|discriminate]. inversion H; subst.
+    destruct (find_offer true (s_clients st)) as [a0|]; [|discriminate].
+    destruct (client_of st a0) eqn:KO; try discriminate. inversion H; subst.
     apply (WaitInv_generic _ _ WI).
     + sproj. destruct WI as (W1 & _). assumption.
     + intros id. sproj. auto.
@@ -574,6 +576,7 @@ Proof.
     + destruct (0 <? s_stop_msgs st).
       * destruct (drain_buffer _) as [st2 cbs]. inversion H; subst. ce_other.
       * destruct (find_offer false (s_clients st)) as [a0|]; [|discriminate].
+        destruct (client_of st a0); try discriminate.
         destruct (drain_buffer _) as [st2 cbs]. inversion H; subst. ce_other.
   - destruct added; inversion H; subst; ce_other.
   - unfold next_victim in H. destruct victims; inversion H; subst; ce_other.
@@ -605,7 +608,8 @@ Proof.
     + destruct (s_pqueue st); [discriminate|]. destruct (tl_increments _ _); [|discriminate].
       inversion H; subst. ce_same CE st.
     + destruct (0 <? s_pol_stop_msgs st); [inversion H; subst; ce_same CE st|].
-      destruct (find_offer true (s_clients st)); [|discriminate]. inversion H; subst. ce_same CE st.
+      destruct (find_offer true (s_clients st)) as [a0|]; [|discriminate]. destruct (client_of st a0); try discriminate.
+      inversion H; subst. ce_same CE st.
   - intros H; inversion H; subst. ce_same CE st.
   - intros H; inversion H; subst. ce_same CE st.
 Qed.
